@@ -256,6 +256,17 @@ func consts() {
 			batch = append(batch, n)
 		}
 	}
+	fmt.Println("(* rockredis: sites where errTooMuchBatchSize leaves a function: (function, via callee or \"\", no batch write precedes) *)")
+	fmt.Println("Definition toomuch_sites : list (gname * gname * bool) := [")
+	ts := tooMuchSites()
+	for i, t := range ts {
+		sep := ";"
+		if i == len(ts)-1 {
+			sep = ""
+		}
+		fmt.Printf("  (%s, %s, %v)%s\n", coqStr(t.fn), coqStr(t.via), t.clean, sep)
+	}
+	fmt.Println("].")
 	fmt.Printf("Definition merge_scan_cmds : list gname := %s.\n", coqStrList(mscan))
 	fmt.Printf("Definition full_scan_cmds : list gname := %s.\n", coqStrList(mfull))
 	fmt.Printf("Definition merge_index_cmds : list gname := %s.\n", coqStrList(midx))
